@@ -4,6 +4,8 @@
 import IoosQc.Wire
 import IoosQc.Props.C01C02
 import IoosQc.Props.C04
+import IoosQc.Props.C20
+import IoosQc.Model.Streams
 
 open Lean IoosQc IoosQc.Wire
 
@@ -54,11 +56,95 @@ def handleAgg (j : Json) : D Json := do
       ("model_eq", toJson (decide (m = o))),
       ("spec", specToJson (C04.spec vs)) ])
 
+def asStatName (s : String) : D StatName :=
+  match s with
+  | "min" => pure .min | "max" => pure .max | "mean" => pure .mean | "std" => pure .std
+  | _ => throw s!"bad stat {s}"
+
+partial def asExpr (j : Json) : D Expr := do
+  match optField j "num" with
+  | some n => .num <$> asRat n
+  | none =>
+  match optField j "stat" with
+  | some s => .stat <$> (asStr s >>= asStatName)
+  | none =>
+  match optField j "neg" with
+  | some e => .neg <$> asExpr e
+  | none => do
+    let o ← field j "op" >>= asStr
+    let a ← field j "a" >>= asExpr
+    let b ← field j "b" >>= asExpr
+    let op ← match o with
+      | "+" => pure BinOp.add | "-" => pure BinOp.sub | "*" => pure BinOp.mul | "/" => pure BinOp.div
+      | _ => throw s!"bad op {o}"
+    pure (.bin op a b)
+
+def asTok (j : Json) : D Tok := do
+  let s ← asStr j
+  match s with
+  | "+" => pure (.op .add) | "-" => pure (.op .sub) | "*" => pure (.op .mul) | "/" => pure (.op .div)
+  | "unary -" => pure .uminus
+  | "min" => pure (.stat .min) | "max" => pure (.stat .max) | "mean" => pure (.stat .mean)
+  | "std" => pure (.stat .std)
+  | _ => pure (.ident s)        -- numbers pushed by earlier parses are irrelevant junk here
+
+def asStats (j : Json) : D Stats := do
+  pure ⟨← field j "min" >>= asRat, ← field j "max" >>= asRat, ← field j "mean" >>= asRat,
+        ← field j "std" >>= asRat⟩
+
+/-- kind = "fx_eval": expression tree, statistics, the junk already on the persistent stack and
+    the observation of `eval_fx`. -/
+def handleFxEval (j : Json) : D Json := do
+  let st ← field j "stats" >>= asStats
+  let e ← field j "expr" >>= asExpr
+  let pre ← (match optField j "pre" with | some p => asList asTok p | none => pure [])
+  let oj ← field j "obs"
+  let o : FxObs ← (match optField oj "error" with
+    | some er => FxObs.error <$> asErr er
+    | none => FxObs.value <$> (field oj "value" >>= asRat))
+  let m := evalFxObs st pre e
+  let mj := match m with
+    | .value v => Json.mkObj [("value", Json.arr #[toJson v.num, toJson v.den])]
+    | .error _ => Json.mkObj [("error", Json.str "Exception")]
+  pure (Json.mkObj [("holds", toJson (C20.holdsEval st e o)), ("model", mj),
+                    ("postfix_len", toJson e.compile.length)])
+
+/-- kind = "fx_valid": a specification string and whether `QcVariableConfig` accepted it. -/
+def handleFxValid (j : Json) : D Json := do
+  let spec ← field j "spec" >>= asStr
+  let acc ← field j "accepted" >>= asBool
+  let er ← getOpt asErr j "error"
+  pure (Json.mkObj [("holds", toJson (C20.holdsValid spec acc er)), ("model_accepts", toJson (validFx spec))])
+
+def asWindow (j : Json) : D Window :=
+  match j with
+  | .arr #[a, b] => do pure ⟨← asOpt asInt a, ← asOpt asInt b⟩
+  | _ => throw "window: [start|null, end|null] expected"
+
+def boolsToJson (bs : List Bool) : Json := Json.arr (bs.map toJson).toArray
+
+/-- kind = "window": the subset masks the property prescribes (and the modelled mechanism of
+    the named front end) for a time axis and a list of windows. -/
+def handleWindow (j : Json) : D Json := do
+  let ts ← field j "t" >>= asList asInt
+  let ws ← field j "windows" >>= asList asWindow
+  let fe := (optField j "frontend").bind (fun x => x.getStr?.toOption) |>.getD "numpy"
+  let mech (w : Window) : List Bool :=
+    match fe with
+    | "pandas" => pandasMask w ((List.range ts.length).zip ts)
+    | "xarray" => xarrayMask w ts
+    | _ => numpyMask w ts
+  pure (Json.mkObj [("spec", Json.arr (ws.map fun w => boolsToJson (specMask w ts)).toArray),
+                    ("mechanism", Json.arr (ws.map fun w => boolsToJson (mech w)).toArray)])
+
 def dispatch (kind : String) (j : Json) : D Json :=
   match kind with
   | "test" => handleTest j
   | "period" => handlePeriod j
   | "agg" => handleAgg j
+  | "fx_eval" => handleFxEval j
+  | "fx_valid" => handleFxValid j
+  | "window" => handleWindow j
   | k => throw s!"unknown kind {k}"
 
 end IoosQc.Handlers
